@@ -143,9 +143,23 @@ CHECKS['C09'] = dict(level='proof',
         'the elementary matrix written from its definition (translation, Rodrigues rotation about the normalised axis, diagonal scale, the shear matrix of the manual); gtx/transform, transform2 '
         '(shear*2D/3D, reflect, proj, scaleBias), rotate_vector (rotate, rotateX/Y/Z), rotate_normalized_axis, matrix_transform_2d and axisAngleMatrix / extractMatrixRotation are compared the same way; '
         'lookAtRH/LH lanes equal the textbook rows (s, u, -+f) and satisfy, on their own lanes, L*(eye,1) = (0,0,0,1), s.d = u.d = 0, z(d) = -+|d| and y(up) = |d x up|^2 * positive factors; '
-        'recompose() equals perspective-row * translate * mat4_cast * skews * scale composed from GLM\'s own factors, in the scalar type of its arguments.',
-   note='Algebraic identities over exact real arithmetic for all M, vectors, angles (cos/sin uninterpreted). Not decided: decompose() (data-dependent index permutation and the orthonormality / unit-quaternion '
-        'reasoning recompose(decompose(M)) == M needs), axisAngle(), interpolate(), float rounding differences between fast and _slow paths. The 2D shearX/shearY of matrix_transform_2d are decided '
+        'recompose() equals perspective-row * translate * mat4_cast * skews * scale composed from GLM\'s own factors, in the scalar type of its arguments; decompose() of that composition with symbolic '
+        'components (unit quaternion, positive scales, M[3][3] = 1) returns, on every path of its decision tree (guards, flip, trace / largest-diagonal extraction with its data-dependent index permutation), '
+        'the composing scale, skew, translation, perspective and +-orientation, every intermediate reduced modulo |q| = 1.',
+   note='Algebraic identities over exact real arithmetic for all M, vectors, angles (cos/sin uninterpreted). Not decided: decompose for negative scales / M[3][3] != 1, axisAngle(), interpolate(), float rounding differences between fast and _slow paths. The 2D shearX/shearY of matrix_transform_2d are decided '
         'convention-independently (pure shear, shearY the transposed slot of shearX) because the manual does not write their matrix down. lookAt handedness dispatch is decided under C08.',
    technique='abstract interpretation of instantiated LLVM IR into rational normal forms; comparison with elementary-matrix products written in a specification DSL; polynomial identities for lookAt')
 NOT_APPLICABLE.pop('C09', None)
+
+CHECKS['C04'] = dict(level='proof',
+   text='Under both quaternion memory orders (default and GLM_FORCE_QUAT_DATA_WXYZ), float and double: q*p / operator*= / cross(q,p) equal the Hamilton product; q*v, rotate(q,v), mat3_cast(q)*v, mat4_cast(q)*v '
+        'equal the vector part of q (0,v) conj(q) modulo |q| = 1 (v*q the inverse rotation); mat3_cast(q1*q2) == mat3_cast(q1)*mat3_cast(q2); q*inverse(q) == 1, inverse == conjugate for unit q; '
+        'angleAxis(a,v) == (cos a/2, v sin a/2), its matrix is the Rodrigues matrix, rotate(q,a,v) == q*angleAxis(a, normalised v); angleAxis(angle(q), axis(q)) == q in every regime of angle()/axis(); '
+        'qua(euler) == angleAxis(z)*angleAxis(y)*angleAxis(x); quat_cast(mat3_cast(q)) is parallel to q with unit norm in each of the four largest-component branches (so +-q); qua(u,v) and gtx rotation(u,v) '
+        'map u onto the direction of v; eulerAngleX/Y/Z are the textbook axis rotations and all 6 two-axis, 12 three-axis builders, yawPitchRoll and orientate3/4 equal the product of their factors; every '
+        'extractEulerAngleABC(eulerAngleABC(t1,t2,t3)) hands each atan2 a positive multiple (cos t2 / sin t2 / 1) of (sin t, cos t) of the angle it must reproduce.',
+   note='Identities over exact real arithmetic modulo |q| = 1 and sin^2 + cos^2 = 1, inverse-trig principal-value axioms for angle()/axis(); a refutation always carries an explicit rational witness on the unit sphere. '
+        'Not decided: quat(eulerAngles(q)) (roll/pitch/yaw atan2 guards with half angles), the opposite-vectors arms of qua(u,v)/rotation(u,v), dual quaternions, accuracy near singular configurations, '
+        'the Euler extraction outside its regime (cos t2 > 0 resp. sin t2 > 0).',
+   technique='abstract interpretation of instantiated LLVM IR into polynomial normal forms; ideal-membership by reduction modulo the unit-norm and Pythagorean relations; decision-tree exploration of branchy code; configuration differential (both quaternion layouts)')
+NOT_APPLICABLE.pop('C04', None)
